@@ -1758,7 +1758,8 @@ template <class T> std::string genFRTT(Rng& r) {
   }
   if (!(f >= T(0) && f < T(1))) f = T(0.5);
   T val = nudge(fixFinite(n + f), r.coin(1, 2) ? r.range(-3, 3) : 0);
-  if (uns && val < T(0)) val = (isRound && r.coin()) ? -f : -val;   // round on unsigned targets is exercised on (-1,0) as well
+  if (uns && val < T(0)) val = -val;
+  if (uns && isRound && r.coin(1, 6)) val = -f;   // round on unsigned targets is exercised on (-1,0] as well
   std::ostringstream os;
   os << (isRound ? "fround " : "ftrunc ") << FTr<T>::name << " " << it << " " << STYLES[st] << " " << RSTYLES[rs] << " " << dyStr<T>(fixFinite(val)) << " "
      << epsTok(eps, dflt);
